@@ -23,6 +23,10 @@ CLAIMS = {
                 text="Held on 1430 wrapper types (10 wrappers, all 100 two-level compositions, 13 inner targets) x N random meta items: each outcome compared with a compositional model applied to the inner type's own outcome on the same item; SpannedValue range, WithOriginal copy, from_none, Flag and IdentString checked.",
                 note="Differential: the inner type's observed outcome is the reference.",
                 technique="runtime monitoring: differential execution (wrapper vs wrapped conversion on the same input) with a compositional model"),
+    "C13": dict(engine="direct",
+                text="Held on N random fragments from 22 grammar families, each fed to all 63 syntax-valued targets in bare / quoted / invisible-group / list / word spelling; expected tokens come from the expression darling is handed or from syn::parse_str::<T> of the string contents; bare/quoted agreement and spanned rejections checked.",
+                note="syn::parse_str::<T> is taken as the grammar of T; token comparison ignores spacing and invisible groups.",
+                technique="runtime monitoring: differential execution against syn's own parser on generated source fragments"),
     "C15": dict(engine="direct",
                 text="Routing: exhaustive table of 128 probe implementers x 65 item forms x 3 hook return modes against a routing model. Splitting: N random nested lists whose item split is known by construction, print/parse identity, and single-token mutations judged by an independent token-tree recogniser.",
                 note="Expression validity is delegated to syn::parse2::<Expr>; keyword item names other than crate/self/super are not generated."),
